@@ -228,6 +228,8 @@ class Conv:
             if len(a) == 1 and name in ("cwiseQuotient",):
                 return self.conv(o) / self.conv(a[0])
             if self.scalar:
+                if not a and name in ("colwise", "rowwise"):
+                    return self.conv(o)         # 1x1 instance: the partial reductions are the identity
                 if not a and name in ("sum", "mean", "maxCoeff", "minCoeff", "trace", "asDiagonal", "diagonal", "norm",
                                       "prod"):
                     x = self.conv(o)
